@@ -42,7 +42,7 @@ ASSIGN = [("_mass", "el+", 123.456, None), ("_mass", "iso", 55.5, None), ("_dens
           ("covalent_radius", "el+", 9.87, "covalent_radius"), ("K_alpha", "cu", 7.77, "emission"),
           ("K_alpha", "el+", 7.77, "emission"),
           ("crystal_structure", "el+", "<assigned>", "crystal_structure"), ("neutron", "el+", "<assigned>", "neutron"),
-          ("neutron", "iso", "<assigned>", "neutron"), ("magnetic_ff", "el+", "<assigned>", "magnetic_ff"),
+          ("neutron", "iso", "<assigned>", "neutron"), ("magnetic_ff", "el+", {"99": "<assigned>"}, "magnetic_ff"),
           ("neutron_activation", "iso2", "<assigned>", "activation")]
 MUTATE = [("crystal_structure", "el+", "crystal_structure"), ("neutron", "el+", "neutron"), ("neutron", "el-", "neutron"),
           ("neutron", "iso", "neutron"), ("neutron", "D", "neutron"), ("neutron", "ed", "neutron"), ("neutron", "lu", "neutron"),
